@@ -1,5 +1,6 @@
 import Fabio.Generated.C18
 import Fabio.Props.C18
+import Fabio.Props.C18Exit
 /-!
 Obligations over the facts regenerated from `/repo` on every run: the shapes of the code from which the
 per-type contracts of `Fabio.Model.C18` were read. `…Events` lists are the calls / channel receives / go
@@ -123,6 +124,60 @@ nothing of os/signal is called besides `Notify` (no `signal.Stop`/`Reset`/`Ignor
 during the drain is swallowed instead of killing the process with the default action. -/
 theorem exit_listen_keeps_signals_caught :
     exitListenEvents = ["signal.Notify", "<-notified", "<-pkgvar", "handler"] := by decide
+
+/-- **Tie of `Model.C18Exit.ListenContract.reselects`**: every receive in `exit.Listen` is a case of a `select` that
+also has a case on a package-level channel (`quit`, which `exit.Exit` closes) — there is no wait for a signal that
+`Exit`/`Fatal`/`Fatalf` cannot end, however many SIGHUPs came before. (A plain `sig = <-sigchan` after a SIGHUP
+counts as one receive without `quit`.) -/
+theorem exit_listen_always_watches_quit :
+    exitListenReceivesWithoutQuit = 0 ∧ 1 ≤ exitListenSelectsWithQuit := by decide
+
+/-- the contract the current tree's `exit.Listen` follows, as far as the AST tells -/
+def codeListenContract : Fabio.Model.C18Exit.ListenContract :=
+  if exitListenReceivesWithoutQuit = 0 then .reselects else .signalsOnly
+
+/-- `exit_completes` at the contract read from the current tree: `exit.Exit`/`Fatal` after any number of SIGHUPs
+starts every handler and gets past its `wg.Wait()`. -/
+theorem exit_completes_on_this_tree (k n : Nat) :
+    Fabio.Model.C18Exit.exitCompletes (Fabio.Model.C18Exit.run codeListenContract (Fabio.Model.C18Exit.initial k)
+      (Fabio.Model.C18Exit.history n .exitCall)) = true := by
+  have h : codeListenContract = .reselects := by decide
+  rw [h]
+  exact Props.C18Exit.exit_completes k n
+
+/-- **Tie of `WsContract.waitedFor`** (D31): `proxy.Shutdown` starts one more goroutine of its WaitGroup (`.Done`) that
+hands a `context.WithTimeout(_, timeout)` to a method of the package-level variable which the hijacking handler
+(the function that calls `.Hijack()`) updates — it waits for the open websocket sessions, with the servers' timeout.
+False before cf1f970. -/
+theorem ws_sessions_waited_for :
+    shutdownWaitsForHijacked = true ∧ shutdownHijackedTimeoutIsParam = true := by decide
+
+/-- the websocket contract the current tree follows, as far as the AST tells -/
+def codeWsContract : WsContract := if shutdownWaitsForHijacked && shutdownHijackedTimeoutIsParam then .waitedFor else .notWaitedFor
+
+/-- The property's second sentence at the level of the process, at the contracts read from this tree: every piece of
+in-flight work, websocket sessions included, that ends within the wait completes before the process ends — and the
+process ends no later than grace + wait after the signal. -/
+theorem process_completes_inflight_work_on_this_tree (s grace wait : Nat) (srvs : List Server)
+    (sv : Server) (l : Leaf) (e : Time) (hs : sv ∈ srvs) (hl : l ∈ sv.leaves) (he : e ∈ l.allWork)
+    (h : tle e (some (s + grace + wait)) = true) :
+    processFate (processExit codeWsContract (if grpcShutdownUsesCtx then .stopsAtDeadline else .ignoresDeadline) s grace wait srvs) e = .completed ∧
+    tle (processExit codeWsContract (if grpcShutdownUsesCtx then .stopsAtDeadline else .ignoresDeadline) s grace wait srvs)
+      (some (s + grace + wait)) = true := by
+  have h1 : codeWsContract = .waitedFor := by decide
+  have h2 : grpcShutdownUsesCtx = true := by decide
+  simp only [h1, h2, if_true]
+  exact ⟨Props.C18.process_completes_inflight_work _ s grace wait srvs sv l e hs hl he h,
+         Props.C18.process_exit_bounded _ Props.C18.repaired_contract_bounded s grace wait srvs⟩
+
+/-- **Tie of `Model.C18.listenAndServe` / `Start`** (one bind, then the registration, nothing in between): on the way
+from a `ListenAndServe*` call to the registry insert — `ListenTCP` included — nothing sleeps, waits on a timer, a
+channel or a WaitGroup, and the bind is not inside a loop or select. A start that could still be waiting when
+`proxy.Shutdown` takes its snapshot would register afterwards, in the fresh registry, which nothing shuts down
+(`Props.C18.late_registration_keeps_accepting`). The stream class `listener-start-pending` watches the address for
+1.2 s after it became free; a retry with a longer back-off is only visible here. -/
+theorem listen_path_does_not_wait :
+    listenPathWaits = [] ∧ listenBindRetried = false := by decide
 
 /-- The bounded-from-the-call theorem at the contract and the lock discipline read from this tree. -/
 theorem shutdown_bounded_from_call_on_this_tree (called wait : Nat) (srvs : List Server) :
